@@ -390,21 +390,37 @@ Proof.
 Qed.
 
 (** ** TurnAngle(c,b,a) == -TurnAngle(a,b,c) *)
+(** not both arguments of the atan2 inside Vector.Angle are zero *)
 Definition dot_nonzero (a b c : s2_Point) : Prop :=
-  PrimFloat.eqb (r3_Vector_Dot (s2_Point_Vector (s2_Point_PointCross a b))
-                               (s2_Point_Vector (s2_Point_PointCross b c))) 0 = false.
+  let u := s2_Point_Vector (s2_Point_PointCross a b) in
+  let v := s2_Point_Vector (s2_Point_PointCross b c) in
+  PrimFloat.eqb (r3_Vector_Dot u v) 0 = false \/ PrimFloat.eqb (r3_Vector_Norm (r3_Vector_Cross u v)) 0 = false.
+
+Lemma SFz_notnan x : SFz (Prim2SF x) -> go_isnan x = false.
+Proof. intros H. unfold go_isnan. rewrite eqb_spec. destruct (Prim2SF x); simpl in *; tauto. Qed.
+
+(** atan2(y, +0) = atan2(y, -0) unless y is a zero *)
+Lemma atan2_zq y x x' : fzq x x' -> PrimFloat.eqb x 0 = false \/ PrimFloat.eqb y 0 = false ->
+  math_Atan2 y x = math_Atan2 y x'.
+Proof.
+  intros [E | [Zx Zx']] H.
+  - apply Prim2SF_inj in E. subst. reflexivity.
+  - destruct H as [H | H]; [rewrite (SFz_eqb0 x Zx) in H; discriminate|].
+    unfold math_Atan2, math_atan2.
+    rewrite (SFz_notnan x Zx), (SFz_notnan x' Zx'), (SFz_eqb0 x Zx), (SFz_eqb0 x' Zx'), H. reflexivity.
+Qed.
 
 Lemma turn_angle_abs_reverse a b c :
   cross_nonzero a b -> cross_nonzero b c -> dot_nonzero a b c ->
   turn_angle_abs c b a = turn_angle_abs a b c.
 Proof.
-  intros Hab Hbc Hdot. unfold turn_angle_abs, dot_nonzero in *.
+  intros Hab Hbc Hdot. unfold turn_angle_abs, dot_nonzero in *. cbv zeta in Hdot.
   rewrite (PointCross_raw a b Hab), (PointCross_raw b c Hbc) in *.
   rewrite (PointCross_raw c b (cross_nonzero_swap _ _ Hbc)), (PointCross_raw b a (cross_nonzero_swap _ _ Hab)).
   pose proof (pc_raw_swap b c) as Hx. pose proof (pc_raw_swap a b) as Hy.
   unfold r3_Vector_Angle.
   rewrite (norm_cross_nz _ _ _ _ Hx Hy).
-  rewrite <- (fzq_nonzero_eq _ _ (dot_nz _ _ _ _ Hx Hy) Hdot). reflexivity.
+  rewrite <- (atan2_zq _ _ _ (dot_nz _ _ _ _ Hx Hy) Hdot). reflexivity.
 Qed.
 
 Section TurnAngle.
@@ -413,8 +429,9 @@ Variable rs : sign_fn.
 (** Full statement with the guards it needs.  The excluded inputs are exactly
     (i) a PointCross whose raw product is the zero vector (equal/antipodal points, or an
         underflow), where the Ortho fallback of the two orders need not be opposite, and
-    (ii) an exactly zero dot product of the two cross products, where only the SIGN of the
-        zero may differ between the two orders and atan2(+0,+0)=0 but atan2(+0,-0)=pi.
+    (ii) BOTH the dot product of the two cross products and the norm of their cross product
+        are zero (an underflow: the vectors are non-zero), where only the SIGN of the zero dot
+        product may differ between the two orders and atan2(+0,+0)=0 but atan2(+0,-0)=pi.
     Both are refuted without the guard by [turn_angle_reverse_unguarded_refuted] below
     (points 1e-300 apart: outside the domain of property C18). *)
 Theorem turn_angle_reverse : forall a b c,
@@ -456,4 +473,145 @@ Proof.
   exists (fun p _ _ => if s2_Point_eqb p uf_a then (-1)%Z else 1%Z), uf_a, uf_b, uf_c.
   repeat split; try (vm_compute; auto; fail).
   intro H. apply (f_equal (fun x => PrimFloat.eqb x 0)) in H. vm_compute in H. discriminate.
+Qed.
+
+(** * The final clamp of TurningAngle is odd *)
+Local Open Scope R_scope.
+
+Lemma rankB_opp (b : binary_float prec emax) : rankB (Bopp b) = - rankB b.
+Proof.
+  destruct b as [s|s| |s m e He]; simpl.
+  - lra.
+  - destruct s; simpl; lra.
+  - lra.
+  - rewrite <- !F2R_Zopp. destruct s; reflexivity.
+Qed.
+
+Lemma rank_opp x : rank (PrimFloat.opp x) = - rank x.
+Proof. unfold rank. rewrite opp_equiv. apply rankB_opp. Qed.
+
+Lemma is_nan_Bopp (b : binary_float prec emax) : is_nan (Bopp b) = is_nan b.
+Proof. destruct b; reflexivity. Qed.
+
+Lemma nonnan_opp x : nonnan x -> nonnan (PrimFloat.opp x).
+Proof. unfold nonnan. rewrite !go_isnan_equiv, opp_equiv, is_nan_Bopp. auto. Qed.
+
+Lemma Bltb_nan_l (a b : binary_float prec emax) : is_nan a = true -> Bltb a b = false.
+Proof. destruct a; try discriminate. reflexivity. Qed.
+Lemma Bltb_nan_r (a b : binary_float prec emax) : is_nan b = true -> Bltb a b = false.
+Proof. destruct b; try discriminate. destruct a; reflexivity. Qed.
+
+Lemma ltb_opp_opp a b : PrimFloat.ltb (PrimFloat.opp a) (PrimFloat.opp b) = PrimFloat.ltb b a.
+Proof.
+  destruct (go_isnan a) eqn:Na.
+  { rewrite !ltb_equiv, opp_equiv. rewrite go_isnan_equiv in Na.
+    rewrite Bltb_nan_l by (rewrite is_nan_Bopp; exact Na). rewrite Bltb_nan_r by exact Na. reflexivity. }
+  destruct (go_isnan b) eqn:Nb.
+  { rewrite !ltb_equiv, (opp_equiv b). rewrite go_isnan_equiv in Nb.
+    rewrite Bltb_nan_r by (rewrite is_nan_Bopp; exact Nb). rewrite Bltb_nan_l by exact Nb. reflexivity. }
+  rewrite !ltb_rank by (try apply nonnan_opp; assumption).
+  rewrite !rank_opp.
+  destruct (Rlt_bool_spec (- rank a) (- rank b)); destruct (Rlt_bool_spec (rank b) (rank a)); try reflexivity; lra.
+Qed.
+
+Lemma ltb_true_nonnan a b : PrimFloat.ltb a b = true -> nonnan a /\ nonnan b.
+Proof.
+  intros H. unfold nonnan. rewrite !go_isnan_equiv. rewrite ltb_equiv in H.
+  destruct (is_nan (Prim2B a)) eqn:Na; [rewrite Bltb_nan_l in H by exact Na; discriminate|].
+  destruct (is_nan (Prim2B b)) eqn:Nb; [rewrite Bltb_nan_r in H by exact Nb; discriminate|]. auto.
+Qed.
+
+Lemma isnan_eq_nan y : go_isnan y = true -> y = nan.
+Proof.
+  intros H. apply Prim2SF_inj. unfold go_isnan in H. rewrite eqb_spec in H.
+  change (Prim2SF nan) with S754_nan.
+  destruct (Prim2SF y) as [s|s| |s m e]; try reflexivity; exfalso.
+  - simpl in H. discriminate.
+  - destruct s; simpl in H; discriminate.
+  - unfold SFeqb, SFcompare in H. rewrite Z.compare_refl in H.
+    destruct s; rewrite ?Pos.compare_cont_refl in H; simpl in H; discriminate.
+Qed.
+
+Lemma eqb_neg_inf y : PrimFloat.eqb y neg_infinity = true -> y = neg_infinity.
+Proof.
+  intros H. apply Prim2SF_inj. rewrite eqb_spec in H. change (Prim2SF neg_infinity) with (S754_infinity true) in *.
+  destruct (Prim2SF y) as [s|s| |s m e]; try (simpl in H; discriminate).
+  all: destruct s; try reflexivity; simpl in H; discriminate.
+Qed.
+Lemma eqb_pos_inf y : PrimFloat.eqb y infinity = true -> y = infinity.
+Proof.
+  intros H. apply Prim2SF_inj. rewrite eqb_spec in H. change (Prim2SF infinity) with (S754_infinity false) in *.
+  destruct (Prim2SF y) as [s|s| |s m e]; try (simpl in H; discriminate).
+  all: destruct s; try reflexivity; simpl in H; discriminate.
+Qed.
+
+Local Notation m := maxCurvature.
+
+(** math.Min(m, y) for the concrete positive finite m *)
+Lemma fmin_m y : go_fmin m y = if PrimFloat.ltb m y then m else y.
+Proof.
+  unfold go_fmin.
+  change (PrimFloat.eqb m neg_infinity) with false. change (go_isnan m) with false. change (PrimFloat.eqb m 0) with false.
+  cbn [orb andb].
+  destruct (PrimFloat.eqb y neg_infinity) eqn:E.
+  { apply eqb_neg_inf in E. subst y. reflexivity. }
+  destruct (go_isnan y) eqn:N.
+  { apply isnan_eq_nan in N. subst y. reflexivity. }
+  reflexivity.
+Qed.
+
+(** math.Max(-m, z) *)
+Lemma fmax_m z : go_fmax (PrimFloat.opp m) z = if PrimFloat.ltb z (PrimFloat.opp m) then PrimFloat.opp m else z.
+Proof.
+  unfold go_fmax.
+  change (PrimFloat.eqb (PrimFloat.opp m) infinity) with false. change (go_isnan (PrimFloat.opp m)) with false.
+  change (PrimFloat.eqb (PrimFloat.opp m) 0) with false.
+  cbn [orb andb].
+  destruct (PrimFloat.eqb z infinity) eqn:E.
+  { apply eqb_pos_inf in E. subst z. reflexivity. }
+  destruct (go_isnan z) eqn:N.
+  { apply isnan_eq_nan in N. subst z. reflexivity. }
+  reflexivity.
+Qed.
+
+Lemma clamp_odd y :
+  go_fmax (PrimFloat.opp m) (go_fmin m (PrimFloat.opp y)) = PrimFloat.opp (go_fmax (PrimFloat.opp m) (go_fmin m y)).
+Proof.
+  rewrite !fmin_m, !fmax_m.
+  assert (Hm : PrimFloat.opp (PrimFloat.opp m) = m) by apply fopp_involutive.
+  assert (E1 : PrimFloat.ltb m (PrimFloat.opp y) = PrimFloat.ltb y (PrimFloat.opp m)).
+  { rewrite <- Hm at 1. apply ltb_opp_opp. }
+  assert (E2 : PrimFloat.ltb (PrimFloat.opp y) (PrimFloat.opp m) = PrimFloat.ltb m y) by apply ltb_opp_opp.
+  assert (Hmm : PrimFloat.ltb (PrimFloat.opp m) m = true) by reflexivity.
+  assert (Hmm' : PrimFloat.ltb m (PrimFloat.opp m) = false) by reflexivity.
+  rewrite E1.
+  destruct (PrimFloat.ltb y (PrimFloat.opp m)) eqn:A.
+  - (* y < -m *)
+    rewrite Hmm'.
+    assert (B : PrimFloat.ltb m y = false).
+    { pose proof A as A0. destruct (ltb_true_nonnan _ _ A) as [Ny Nm].
+      assert (Nm' : nonnan m) by reflexivity.
+      apply (proj1 (ltb_true_iff _ _ Ny Nm)) in A0. apply (proj1 (ltb_true_iff _ _ Nm Nm')) in Hmm.
+      apply (proj2 (ltb_false_iff _ _ Nm' Ny)). lra. }
+    rewrite B, A. symmetry. exact Hm.
+  - rewrite E2.
+    destruct (PrimFloat.ltb m y) eqn:B.
+    + rewrite Hmm'. reflexivity.
+    + rewrite A. reflexivity.
+Qed.
+
+Lemma float_of_Z_1 : float_of_Z 1 = 1%float.
+Proof. reflexivity. Qed.
+Lemma float_of_Z_m1 : float_of_Z (-1) = PrimFloat.opp 1%float.
+Proof. reflexivity. Qed.
+
+(** [float64(-dir) * x] is the exact negation of [float64(dir) * x], and the clamp
+    [math.Max(-maxCurvature, math.Min(maxCurvature, .))] is odd. *)
+Theorem curvature_clamp_opp : forall dir st, (dir = 1 \/ dir = -1)%Z ->
+  curvature_clamp (- dir) st = PrimFloat.opp (curvature_clamp dir st).
+Proof.
+  intros dir st [-> | ->]; unfold curvature_clamp; cbn [Z.opp Pos.succ];
+  rewrite ?float_of_Z_1, ?float_of_Z_m1, ?fmul_opp_l.
+  - apply clamp_odd.
+  - rewrite clamp_odd, fopp_involutive. reflexivity.
 Qed.
